@@ -18,9 +18,11 @@ IntProds == {"L", "add", "sub", "mul", "call2", "call3", "orp", "orn", "rec", "n
 (* KT / KF are the literals true / false (no side effect): folding must not drop a sibling *)
 BoolProds == {"LT", "LF", "and", "or", "lt", "eq", "not", "andor", "KT", "KF"}
 IxProds == {"LI0", "LI1"}
-RootProds == {"printi", "printb", "list3", "call4", "ifb", "assign2", "listidx", "map3", "mcall2"}
+(* listself / callself / sumself: a zero-argument recursive call `self()` as a later element / argument / operand, after a plain *)
+(* name (the earlier value is on the operand stack while the callee runs)                                                      *)
+RootProds == {"printi", "printb", "list3", "call4", "ifb", "assign2", "listidx", "map3", "mcall2", "listself", "callself", "sumself"}
 Kids(p) ==
-    CASE p \in {"L", "LT", "LF", "LI0", "LI1", "VAR", "BUMP", "KT", "KF", "ELEM", "PUT", "FLD", "FBUMP"} -> <<>>
+    CASE p \in {"L", "LT", "LF", "LI0", "LI1", "VAR", "BUMP", "KT", "KF", "ELEM", "PUT", "FLD", "FBUMP", "listself", "callself", "sumself"} -> <<>>
       [] p \in {"add", "sub", "mul", "call2", "lt", "eq"} -> <<"int", "int">>
       [] p = "call3" -> <<"int", "int", "int">>
       [] p = "listidx" -> <<"int", "int", "ix">>
@@ -96,6 +98,13 @@ Parse(ts, i) ==
              \* a map literal whose first and last pair spell the same key: every pair is evaluated, in order; the last wins
              [] p = "map3" -> Let("mm", [k |-> "map", kt |-> "str", vt |-> "int", braces |-> TRUE,
                                          kvs |-> <<[key |-> S("a"), val |-> x[1]], [key |-> S("b"), val |-> x[2]], [key |-> S("a"), val |-> x[3]]>>])
+             [] p \in {"listself", "callself", "sumself"} ->
+                  Let("rz", Fn("rz", <<>>, "int",
+                      <<If(Bin("<=", V("left"), I(0)), <<Ret(I(1))>>), Modify("left", Bin("-", V("left"), I(1))), Let("here", V("left"))>> \o
+                      (CASE p = "listself" -> <<LetT("inner", "[int...]", List(<<V("here"), Call(Self, <<>>), I(9)>>)), Print(V("inner")),
+                                                Ret(Bin("+", Bin("*", V("here"), I(10)), MCall(V("inner"), "len", <<>>)))>>
+                         [] p = "callself" -> <<Ret(Call(V("f2"), <<V("here"), Call(Self, <<>>)>>))>>
+                         [] p = "sumself" -> <<Ret(Bin("-", V("here"), Call(Self, <<>>)))>>)))
              [] p = "mcall2" -> Print(MCall(V("box"), "add2", x))
              [] p = "call4" -> Print(Call(V("f4"), x))
              [] p = "ifb" -> IfElse(x[1], <<Print(S("then"))>>, <<Print(S("else"))>>)
@@ -103,10 +112,11 @@ Parse(ts, i) ==
              [] p = "listidx" -> LetT("pair", "[int...]", List(<<x[1], x[2]>>))]
 Tail2(ts) == IF ts[1] = "map3" THEN <<Print(Idx(V("mm"), S("a"))), Print(Idx(V("mm"), S("b"))), Print(MCall(V("mm"), "len", <<>>))>>
              ELSE IF ts[1] = "listidx" THEN <<Print(Idx(V("pair"), Parse(ts, 1).ix))>>
+             ELSE IF ts[1] \in {"listself", "callself", "sumself"} THEN <<Print(Call(V("rz"), <<>>)), Print(V("left"))>>
              ELSE IF ts[1] = "assign2" THEN <<Print(V("pair"))>> ELSE <<>>
 
 Prologue ==
-    <<Let("cnt", I(1000)),
+    <<Let("cnt", I(1000)), Let("left", I(3)),
       LetT("cells", "[int...]", List(<<I(500)>>)), Let("z0", I(0)),
       Let("put", Fn("put", <<>>, "int", <<Print(S("put")), Let("k0", I(0)), Assign(Idx(V("cells"), V("k0")), "+", I(1)), Ret(Idx(V("cells"), V("k0")))>>)),
       [k |-> "class", n |-> "Box", export |-> FALSE, fields |-> <<[n |-> "n", ty |-> "int"]>>,
